@@ -2342,3 +2342,39 @@ func rulePlaceholderRegistered(c *Ctx, r *Report) {
 		r.undecided(rule, fname(fn)+"/success-returns", c.Pos(fn.Pos()), desc, "no successful return found")
 	}
 }
+
+// ---------------------------------------------------------------------------
+// R-SCAN-INT-FLOAT-EXACT (C15; added after seed C15j): Scan "never stores a silently ... altered value". An
+// Integer converted to float64 is exact only up to 2^53 in magnitude. In the root package every conversion of an
+// engine.Integer to a float lies under branch facts that bound it within [-2^53, 2^53] (today there is none: an
+// integer answer is refused for a float destination).
+func ruleScanIntFloatExact(c *Ctx, r *Report) {
+	const rule = "R-SCAN-INT-FLOAT-EXACT"
+	desc := "an integer answer reaches a float destination only where the float holds it exactly"
+	const lim = int64(1) << 53
+	n := 0
+	for _, fn := range c.LibFuncs() {
+		if funcPkg(fn) != c.Root {
+			continue
+		}
+		k := 0
+		eachInstr(fn, func(in ssa.Instruction) {
+			cv, ok := in.(*ssa.Convert)
+			if !ok || !isFloatType(cv.Type()) || !isNamedIn(cv.X.Type(), enginePkgPath, "Integer") {
+				return
+			}
+			n++
+			k++
+			key := fmt.Sprintf("%s/float(Integer)#%d", fname(fn), k)
+			rg := c.rangeAt(in.Block(), cv.X)
+			if rg.hasLo && rg.lo >= -lim && rg.hasHi && rg.hi <= lim {
+				r.ok(rule, key, c.at(in), desc, fmt.Sprintf("under the facts %d <= n <= %d", rg.lo, rg.hi), true)
+			} else {
+				r.bad(rule, key, c.at(in), desc, "the integer is not known to lie within [-2^53, 2^53] here: an odd integer beyond 2^53 is stored as its rounded neighbour, and Scan reports no error")
+			}
+		})
+	}
+	if n == 0 {
+		r.info(rule, "scan/float(Integer)", "-", desc, "the root package converts no Integer to a float: an integer answer is refused for a float destination")
+	}
+}
